@@ -1,6 +1,6 @@
 """C15 (extension F15) -- `matches` (non-full): the verdict of the applier that builds a dict of the expected names and
 shrinks it while it iterates over the files of the model.  See notes/C15.md, section "Extension F15"."""
-from pyvc.api import (Module, Interface, Method, Iface, Inst, Int, Nat, Bool, Str, Opt, MapOf, MListOf, Any_, Custom,
+from pyvc.api import (Module, Interface, Method, Iface, Inst, Int, Nat, Bool, Str, Opt, MapOf, MListOf, ListOf, Any_, Custom,
                       new_opaque)
 from pyvc.values import to_z3, wrap
 from contracts.common import implies, iff, is_opaque, forall_range, exists_range, forall_keys
@@ -177,4 +177,88 @@ M.contract(P_MODELS + ':_FilesGeneratorForNonRecursive.generate',
            ensures={'the direct contents of the directory: one file per entry, in scan order, at root/NAME (pruning is '
                     'irrelevant: nothing is descended into)': lambda root_dir_path, result:
            direct_contents(items_of(result), root_dir_path)},
+           raises_only=())
+
+
+# ============================================================================== FILES-CONDITION / FILE-LIST plumbing
+# (left out so far): the validator of a FILES-CONDITION name; sdv -> ddv -> adv -> primitive of a FILE-LIST keep the
+# entries, their names and their order.
+
+from exactly_lib.impls.types.files_condition.impl import literal as fc_literal
+from exactly_lib.impls.types.files_source.impl import file_list
+from contracts.pathspec import P, is_abs
+from contracts.C15_dirtrees import FileMakerI, P_FL
+
+P_FC = 'exactly_lib.impls.types.files_condition.impl.literal'
+
+M.contract('exactly_lib.util.str_.str_constructor:FormatMap.__init__', trusted=True,
+           params=dict(self=Any_, format_str=Any_, format_map=Any_))
+M.trust('str_constructor.FormatMap(...) builds an error message (messages are outside the property)')
+
+M.contract(P_FC + ':_IsRelativePosixPath.validate_pre_sds_if_applicable',
+           params=dict(self=Inst(fc_literal._IsRelativePosixPath, path_str=Str), hds=Any_), returns=Opt(Any_),
+           ensures={'a FILE-NAME of a FILES-CONDITION is accepted iff it is not empty and not absolute':
+                        lambda self, result: iff(result is None, self.path_str != '' and not is_abs(P(self.path_str)))},
+           raises_only=())
+
+
+class MakerAdvI(Interface):
+    """FileMakerAdv: primitive(environment) is a function of the adv"""
+    methods = {'primitive': Method(returns=Iface(FileMakerI), pure=True)}
+
+
+class MakerDdvI(Interface):
+    """FileMakerDdv"""
+    attrs = {'validator': Any_}
+    methods = {'value_of_any_dependency': Method(returns=Iface(MakerAdvI), pure=True)}
+
+
+class NameDdvI(Interface):
+    methods = {'value_when_no_dir_dependencies': Method(returns=Str, pure=True)}
+
+
+class NameSdvI(Interface):
+    attrs = {'references': Any_}
+    methods = {'resolve': Method(returns=Iface(NameDdvI), pure=True)}
+
+
+class MakerSdvI(Interface):
+    attrs = {'references': Any_}
+    methods = {'resolve': Method(returns=Iface(MakerDdvI), pure=True)}
+
+
+SPEC_ADV = Inst(file_list.FileSpecificationAdv, _name=Str, _maker=Iface(MakerAdvI))
+SPEC_DDV = Inst(file_list.FileSpecificationDdv, name=Str, maker=Iface(MakerDdvI), _validator=Any_)
+SPEC_SDV = Inst(file_list.FileSpecificationSdv, _name=Iface(NameSdvI), _maker=Iface(MakerSdvI))
+
+M.contract(P_FL + ':_Adv.primitive', params=dict(self=Inst(file_list._Adv, _files=ListOf(SPEC_ADV)), environment=Any_),
+           ensures={'as many entries': lambda self, result: len(result._files) == len(self._files),
+                    'entry k: the name of entry k, the maker of entry k -- same order':
+                        lambda self, environment, result:
+                        isinstance(result, file_list.Primitive)
+                        and forall_range(0, len(self._files), lambda k:
+                        result._files[k].name == self._files[k]._name
+                        and result._files[k].maker is self._files[k]._maker.primitive(environment))},
+           raises_only=())
+
+M.contract(P_FL + ':_Ddv.value_of_any_dependency',
+           params=dict(self=Inst(file_list._Ddv, _files=ListOf(SPEC_DDV), _validator=Any_), tcds=Any_),
+           ensures={'as many entries': lambda self, result: len(result._files) == len(self._files),
+                    'entry k: the name of entry k, the maker of entry k -- same order': lambda self, tcds, result:
+                    isinstance(result, file_list._Adv)
+                    and forall_range(0, len(self._files), lambda k:
+                    result._files[k]._name == self._files[k].name
+                    and result._files[k]._maker is self._files[k].maker.value_of_any_dependency(tcds))},
+           raises_only=())
+
+M.contract(P_FL + ':Sdv.resolve',
+           params=dict(self=Inst(file_list.Sdv, _files=ListOf(SPEC_SDV), _references=Any_), symbols=Any_),
+           ensures={'as many entries': lambda self, result: len(result._files) == len(self._files),
+                    'entry k: the resolved name of entry k, the resolved maker of entry k -- same order':
+                        lambda self, symbols, result:
+                        isinstance(result, file_list._Ddv)
+                        and forall_range(0, len(self._files), lambda k:
+                        result._files[k].name
+                        == self._files[k]._name.resolve(symbols).value_when_no_dir_dependencies()
+                        and result._files[k].maker is self._files[k]._maker.resolve(symbols))},
            raises_only=())
